@@ -259,7 +259,13 @@ def runFx (c : Case) : Res :=
     let env : Env := { cal := civil, today := p.today, force := p.force, remote := modelRemote p }
     let garbage : Store := fun y => if p.force && 2013 ≤ y && y < 2027 then some [⟨civilYearStart y, 4242 / 100⟩] else none
     let s0 := St.init garbage
-    let mLk := p.lks.map (fun d => lkOfModel (getEffective env s0 d).1)
+    -- seq=1: all look-ups through one loader, in order (the model's state is threaded)
+    let seq := (kv? c.header "seq") == some "1"
+    let mLk := if seq then
+        (p.lks.foldl (fun (acc : List LkObs × St) d =>
+          let res := getEffective env acc.2 d
+          (acc.1 ++ [lkOfModel res.1], res.2)) ([], s0)).1
+      else p.lks.map (fun d => lkOfModel (getEffective env s0 d).1)
     let mRows := p.rows.map (fun rw =>
       match (rowRates env s0 rw.trade rw.cur rw.fx rw.ccur rw.cfx).1 with
       | .ok (t, cm) => RowObs.ok t.1 t.2 cm
